@@ -479,6 +479,8 @@ def current_operands(ctx, rule, only=None):
 
 
 def run(ctx):
+    from .configtime import recorded_operands_not_mutated as _rec_inplace
+    _rec_inplace(ctx, 'C08.R3', ('Recipe.uses', 'Recipe.transfer', 'Recipe.create_container', 'Recipe.create_solution', 'Recipe.create_solution_from', 'Recipe.remove', 'Recipe.dilute', 'Recipe.fill_to'))
     from .configtime import late_binding_closures as _late
     _late(ctx, 'C08.R5', classes=('Recipe', 'RecipeStep'))
     from .iterables import single_pass_iterables as _single_pass
@@ -570,6 +572,12 @@ def run(ctx):
     from .c07 import addressed_selection
     addressed_selection(ctx, 'C08.R5')
     ctx.obs[before:] = [o for o in ctx.obs[before:] if o.rule == 'C08.R5']
+    # a valid stage program can be declared: start_stage / end_stage compare stage names by value (C16.R5's gates)
+    from . import c16 as _c16
+    before_ = len(ctx.obs)
+    _c16._stage_rules(ctx, model.cls('Recipe'), ff)
+    for o_ in ctx.obs[before_:]:
+        o_.rule = 'C08.R4'
     # ---------------------------------------------------------------- R6 result dictionary
     rets = [e for e in ff.normal_exits() if e.kind == 'return']
     ok = bool(rets) and all(path_from_param(e.value) == ('self', ['results']) for e in rets)
